@@ -68,7 +68,37 @@ func runC05(c *Ctx) {
 				okRefill = true
 			}
 		}
-		c.Require("C05.R11 tip-cached-after-every-removal", FuncKey(rb), site, "after the cache forgot the removed block, an empty cache is refilled from the database before the removal returns", okRefill, "")
+		// the same mechanism in one step (no moment at which a concurrent reader finds the cache
+		// empty): the removed block is popped only while others remain, otherwise the whole content
+		// is replaced by the blocks loaded from the database
+		if !okRefill {
+			loaded := false
+			for _, s := range CallsIn(rb, "(*blockchain.blockCache).replace") {
+				site = p.InstrPos(s.Call)
+				a := s.Call.Common().Args
+				t := rf.Term(a[len(a)-1]).String()
+				if strings.Contains(t, "getLastBlock(") || strings.Contains(t, "GetBlocksBetweenHeight(") || strings.Contains(t, "blocksBelowTip(") {
+					loaded = true
+				}
+			}
+			popsGuarded := true
+			for _, rc := range CallsIn(rb, "(*blockchain.DataAccess).RemoveCache") {
+				gf := rf
+				if rc.Fn != rb {
+					gf = factsOf(rc.Fn)
+				}
+				if !gf.EveryPathHas(rc.Call.Block(), func(f Fact) bool {
+					str := f.String()
+					return f.IsCmp && (strings.Contains(str, ".len(") || strings.Contains(str, ".size")) && f.Entails(CmpSpec{A: Matcher{"cache length", func(t *Term) bool {
+						return strings.Contains(t.String(), ".len(") || strings.Contains(t.String(), ".size")
+					}}, NoB: true, Rel: GE, D: 2})
+				}) {
+					popsGuarded = false
+				}
+			}
+			okRefill = loaded && popsGuarded
+		}
+		c.Require("C05.R11 tip-cached-after-every-removal", FuncKey(rb), site, "after the cache forgot the removed block, an empty cache is refilled from the database before the removal returns (or the content is replaced in one step when the removed block is the only one cached)", okRefill, "")
 	}
 
 	// ---- R1 key-family symmetry
